@@ -3,15 +3,15 @@
 From Yv Require Import Common.Base C13.Model C13.ProofsKern C13.ProofsInv.
 From Coq Require Import Arith.
 
-(* wait would report a child *)
+(* wait would report a child (an exit, a stop or a continuation) *)
 Definition has_news (k : kern) (t : target) : Prop :=
-  exists i st, fst (kwait k t) = WSome i st.
+  fst (kwait k t) <> WNone /\ fst (kwait k t) <> WEchild.
 
 Lemma no_lost_sigchld_lemma p ls s m t c :
   run (init p) ls = Some s -> at_ s = PWait m t c -> (m = SEnter \/ m = SBlocked) ->
   has_news (kn s) t -> pending (kn s) = true \/ 0 < caught (kn s).
 Proof.
-  intros Hr Ha Hm [i [st Hn]]. pose proof (reach_inv _ _ _ Hr) as HI.
+  intros Hr Ha Hm [Hn _]. pose proof (reach_inv _ _ _ Hr) as HI.
   pose proof (i_news _ HI) as Hnews. rewrite Ha in Hnews.
   destruct Hm as [-> | ->]; cbn [news_ok] in Hnews; destruct Hnews as [H|H]; auto; congruence.
 Qed.
@@ -27,9 +27,11 @@ Proof.
   - destruct todo as [|[w x] todo]; [destruct pids|]; apply Some_inj in Hs; subst s'; cbn; discriminate.
   - destruct m.
     + destruct (negb (blocked k)); [|destruct (negb (catching k))]; apply Some_inj in Hs; subst s'; cbn; discriminate.
-    + destruct (kwait k t) as [[i x| |] k'] eqn:Ew.
+    + destruct (kwait k t) as [[i x|i|i| |] k'] eqn:Ew.
       * destruct c as [[|p more] fin pf ra|t0]; apply Some_inj in Hs; subst s'; cbn; try discriminate.
         destruct ra; discriminate.
+      * destruct c; apply Some_inj in Hs; subst s'; cbn; discriminate.
+      * destruct c; apply Some_inj in Hs; subst s'; cbn; discriminate.
       * apply Some_inj in Hs; subst s'; cbn; discriminate.
       * destruct c as [more fin pf ra|t0]; apply Some_inj in Hs; subst s'; cbn; try discriminate.
         (* wait_for_subshell_to_finish got ECHILD: excluded by the invariant *)
@@ -43,7 +45,7 @@ Proof.
   - destruct t0 as [i|].
     + destruct (job_find jb i) as [[x|]|]; apply Some_inj in Hs; subst s'; cbn; discriminate.
     + destruct (job_unfinished jb); apply Some_inj in Hs; subst s'; cbn; discriminate.
-  - destruct (kwait k TAny) as [[i x| |] k']; apply Some_inj in Hs; subst s'; cbn; discriminate.
+  - destruct (kwait k TAny) as [[i x|i|i| |] k']; apply Some_inj in Hs; subst s'; cbn; discriminate.
   - discriminate.
   - discriminate.
 Qed.
@@ -66,26 +68,40 @@ Proof. intros Hr. eapply run_no_panic; [apply inv_init | cbn; discriminate | exa
 
 (* ------------------------------------------------------------------------ *)
 (* progress *)
-Lemma running_child_steps k i c w :
-  nth_error (kids k) i = Some c -> cs c = Running w -> child_step k i <> None.
-Proof. intros Hn Hc. unfold child_step. rewrite Hn, Hc. destruct w; discriminate. Qed.
+Lemma running_child_steps k i c p :
+  nth_error (kids k) i = Some c -> cs c = Running p -> child_step k i <> None.
+Proof. intros Hn Hc. unfold child_step. rewrite Hn, Hc. destruct p as [|[|s t] r]; discriminate. Qed.
 
-Lemma existsb_running_nth l :
-  existsb is_running l = true -> exists i c w, nth_error l i = Some c /\ cs c = Running w.
+Definition some_stopped (k : kern) : Prop :=
+  exists i c p, nth_error (kids k) i = Some c /\ cs c = Stopped p.
+
+Lemma existsb_alive_nth l :
+  existsb is_alive l = true ->
+  exists i c, nth_error l i = Some c /\ ((exists p, cs c = Running p) \/ (exists p, cs c = Stopped p)).
 Proof.
   induction l as [|x t IH]; cbn; [discriminate|].
-  destruct (is_running x) eqn:E.
-  - intros _. exists 0, x. unfold is_running in E. destruct (cs x) eqn:Ec; try discriminate. eauto.
-  - cbn. intros H. destruct (IH H) as [i [c [w [Hn Hc]]]]. exists (S i), c, w. auto.
+  destruct (is_alive x) eqn:E.
+  - intros _. exists 0, x. split; [reflexivity|]. unfold is_alive in E. destruct (cs x); try discriminate; eauto.
+  - cbn. intros H. destruct (IH H) as [i [c [Hn Hc]]]. exists (S i), c. auto.
 Qed.
 
+(* unless the shell has exited, some process can take a step -- or a child is
+   stopped and waits for a SIGCONT that no process is going to send *)
 Lemma progress_inv s :
-  Inv s -> at_ s <> PExit -> at_ s <> PPanic -> exists l, step s l <> None.
+  Inv s -> at_ s <> PExit -> at_ s <> PPanic ->
+  (exists l, step s l <> None) \/ some_stopped (kn s).
 Proof.
-  intros HI He Hp. destruct s as [k pr a st lb jb tr]. cbn [at_] in *.
+  intros HI He Hp. destruct s as [k pr a st lb jb tr]. cbn [at_ kn] in *.
   assert (HP : parent_step (mkState k pr a st lb jb tr) <> None ->
-               exists l, step (mkState k pr a st lb jb tr) l <> None)
-    by (intros H; exists LP; exact H).
+               (exists l, step (mkState k pr a st lb jb tr) l <> None) \/ some_stopped k)
+    by (intros H; left; exists LP; exact H).
+  assert (HC : forall j d, nth_error (kids k) j = Some d -> is_alive d = true ->
+               (exists l, step (mkState k pr a st lb jb tr) l <> None) \/ some_stopped k).
+  { intros j d Hd Ha. unfold is_alive in Ha. destruct (cs d) as [p|p| |] eqn:Hc; try discriminate.
+    - left. exists (LC j). cbn [step kn].
+      pose proof (running_child_steps k j d p Hd Hc) as H.
+      destruct (child_step k j); [discriminate | contradiction].
+    - right. exists j, d, p. auto. }
   destruct a as [|todo pids pf|m t c|t0| | |]; try contradiction.
   - apply HP. unfold parent_step; cbn [kn prog at_ status lastbg jobs trace]. destruct pr as [|[w x|l pf|t|] r]; discriminate.
   - apply HP. unfold parent_step; cbn [kn prog at_ status lastbg jobs trace]. destruct todo as [|[w x] todo]; [destruct pids|]; discriminate.
@@ -93,7 +109,7 @@ Proof.
     + apply HP. unfold parent_step; cbn [kn prog at_ status lastbg jobs trace].
       destruct (negb (blocked k)); [|destruct (negb (catching k))]; discriminate.
     + apply HP. unfold parent_step; cbn [kn prog at_ status lastbg jobs trace].
-      destruct (kwait k t) as [[i x| |] k']; [destruct c as [[|p more] fin pf ra|t0] | | destruct c];
+      destruct (kwait k t) as [[i x|i|i| |] k']; [destruct c as [[|p more] fin pf ra|t0] | destruct c | destruct c | | destruct c];
         discriminate.
     + apply HP. unfold parent_step; cbn [kn prog at_ status lastbg jobs trace]. destruct (0 <? caught (k_unblock k)); discriminate.
     + (* inside select *)
@@ -103,20 +119,17 @@ Proof.
       * destruct (kwait k t) as [r k'] eqn:Ew. cbn [fst] in Hw. subst r.
         apply kwait_none in Ew. destruct Ew as [_ Ew].
         destruct t as [j|].
-        -- destruct Ew as [d [w [Hd Hc]]]. exists (LC j). cbn [step kn].
-           pose proof (running_child_steps k j d w Hd Hc) as H.
-           destruct (child_step k j); [discriminate | contradiction].
-        -- destruct Ew as [_ Hr]. destruct (existsb_running_nth _ Hr) as [j [d [w [Hd Hc]]]].
-           exists (LC j). cbn [step kn].
-           pose proof (running_child_steps k j d w Hd Hc) as H.
-           destruct (child_step k j); [discriminate | contradiction].
+        -- destruct Ew as [d [Hd [Ha _]]]. exact (HC j d Hd Ha).
+        -- destruct Ew as [_ Hr]. destruct (existsb_alive_nth _ Hr) as [j [d [Hd Hc]]].
+           apply (HC j d Hd). unfold is_alive. destruct Hc as [[p Hc]|[p Hc]]; rewrite Hc; reflexivity.
   - apply HP. unfold parent_step; cbn [kn prog at_ status lastbg jobs trace].
     destruct t0 as [i|]; [destruct (job_find jb i) as [[x|]|] | destruct (job_unfinished jb)]; discriminate.
-  - apply HP. unfold parent_step; cbn [kn prog at_ status lastbg jobs trace]. destruct (kwait k TAny) as [[i x| |] k']; discriminate.
+  - apply HP. unfold parent_step; cbn [kn prog at_ status lastbg jobs trace]. destruct (kwait k TAny) as [[i x|i|i| |] k']; discriminate.
 Qed.
 
 Lemma progress_lemma p ls s :
-  run (init p) ls = Some s -> final s = false -> exists l, step s l <> None.
+  run (init p) ls = Some s -> final s = false ->
+  (exists l, step s l <> None) \/ some_stopped (kn s).
 Proof.
   intros Hr Hf. apply progress_inv.
   - eapply reach_inv; eauto.
